@@ -188,7 +188,8 @@ class coo_array(_Base):
                 raise ValueError("row/column index exceeds matrix dimensions")
         elif isinstance(arg, _Base):
             c = arg.tocoo()
-            self.data, self.row, self.col, self.shape = c.data.copy(), c.row.copy(), c.col.copy(), c.shape
+            # scipy: coo_array(S) (copy=False) goes through S.tocoo() and keeps ITS arrays -- the new matrix shares `data` with a coo / csr source
+            self.data, self.row, self.col, self.shape = c.data, c.row.copy(), c.col.copy(), c.shape
             if shape is not None and tuple(shape) != tuple(self.shape):
                 raise ValueError("inconsistent shapes")
         else:
@@ -237,6 +238,10 @@ class csr_array(_Base):
     format = "csr"
 
     def __init__(self, arg, shape=None, dtype=None):
+        if isinstance(arg, csr_array) and dtype is None and (shape is None or tuple(shape) == tuple(arg.shape)):
+            # scipy: csr_array(csr) (copy=False) keeps the source's arrays
+            self.data, self.indices, self.indptr, self.shape = arg.data, arg.indices, arg.indptr, arg.shape
+            return
         c = coo_array(arg, shape=shape, dtype=dtype).tocsr()
         self.data, self.indices, self.indptr, self.shape = c.data, c.indices, c.indptr, c.shape
 
